@@ -298,6 +298,13 @@ class Inventory:
                 self.res.ob("P-idiom", "%s | bulk prefix copy: every assertion, index, append and the loop are covered by the idiom's lemma" % f.path, True, db, f.loc)
                 self.stats["sem"] = self.stats.get("sem", 0) + 1
                 return
+        if f.path in WRAPPERS and WRAPPERS[f.path][0] == "push" and any(callee_of(t_) == "tinyvec::ArrayVec::<A>::try_push" for b_, t_ in f.calls()):
+            # push written as `let r = self.0.try_push(v); assert!(r.is_none())`: ArrayVec::push's own body.  It panics exactly when the vector is
+            # full - the obligation every call site of the wrapper discharges (P-push) - provided nothing else in the body can panic
+            okw, dw = self._push_via_try_push(f)
+            self.discharge("P-wrapper", f, "try_push + assert(is_none) = ArrayVec::push", okw, dw, f.loc["line"], "rule")
+            if okw:
+                return
         fa = FA(f, prog)
         iv = Intervals(fa, prog, assume=assume)
         names = fa.names
@@ -408,6 +415,55 @@ class Inventory:
                     return False
                 n += 1
         return n >= 15
+
+    def _push_via_try_push(self, f):
+        fa = FA(f, self.prog)
+        tps = [(b, t) for b, t in f.calls() if callee_of(t) == "tinyvec::ArrayVec::<A>::try_push"]
+        if len(tps) != 1 or f.loops():
+            return False, "expected exactly one try_push and no loop"
+        tb, tt = tps[0]
+        a = fa.call_args(tb)
+        x = a[0]
+        while x.op == "ref":
+            x = x.args[0]
+        if not (x.op == "pf" and x.args[1] == 0 and x.args[0].op == "mem" and x.args[0].args[0].op == "arg"):
+            return False, "try_push is not applied to self.0"
+        v = a[1]
+        while v.op in ("memval",):
+            v = v.args[0]
+        if not (v.op == "arg" and v.args[1] == 2):
+            return False, "the value pushed is not the wrapper's own argument"
+        r = fa.call_term(tb)
+        # every panic / assert-failure block is reached only when the result is Some (the vector was full); no other call can panic
+        for b, t in f.calls():
+            c = callee_of(t) or ""
+            if b == tb:
+                continue
+            if c.startswith("core::panicking::") or c.startswith("core::fmt::") or c == "core::option::Option::<T>::is_none" or libmodel.is_safe(c):
+                continue
+            return False, "another call in the body: %s" % c
+        for b in sorted(f.reachable()):
+            t = f.term(b)
+            if t["k"] == "call" and (callee_of(t) or "").startswith("core::panicking::"):
+                gs = fa.guards(b)
+                full = False
+                for g in gs:
+                    tt_ = g[0]
+                    # is_none(&r) == false   or   discr(r) == 1
+                    if tt_.op == "call" and tt_.args[0] == "core::option::Option::<T>::is_none" and ((g[1] == "eq" and g[2] == 0) or (g[1] == "ne" and 1 in g[2])):
+                        y = tt_.args[1][0]
+                        while y.op in ("ref", "mem", "memval"):
+                            y = y.args[0]
+                        if y.op == "loc":
+                            y = fa.val(y.args[1], (b, 0))
+                        full = full or y is r
+                    if tt_.op == "discr" and tt_.args[0] is r and ((g[1] == "eq" and g[2] == 1) or (g[1] == "ne" and 0 in g[2])):
+                        full = True
+                if not full:
+                    return False, "a panic is reachable when try_push returned None"
+            if t["k"] == "assert":
+                return False, "an arithmetic / bounds assertion in the body"
+        return True, "panics exactly when try_push hands the value back (vector full)"
 
     def is_forwarder(self, f, fa, b):
         """the wrapped call's receiver is self.0 and, for set_len/remove, the argument is the wrapper's own"""
